@@ -45,6 +45,9 @@ type SpecEnv struct {
 	// the environment of the function under verification): what a parameter
 	// name means inside old()
 	entry map[string]*SV
+	// fallback: names bound only by the function-wide fallback (a variable that
+	// denotes one single SSA value in the whole function) - not "in scope" here
+	fallback map[string]bool
 }
 
 func (e *SpecEnv) clone() *SpecEnv {
@@ -1461,7 +1464,7 @@ func (e *SpecEnv) evalCall(n *ast.CallExpr) *SV {
 		}
 		nm := a.V.L[0].S
 		_, ok1 := e.vars[nm]
-		return svBool(Bool(ok1))
+		return svBool(Bool(ok1 && !e.fallback[nm]))
 	case "fnname":
 		// fnname(f): the (unqualified) name of the function or method a
 		// function value was made from; unconstrained for unknown values
